@@ -42,6 +42,11 @@ func buildSub(d SubData) Sub {
 	return s
 }
 
+// extraTime is the (never zero) time that the Extra kinds 6-8 hold behind an interface.
+func extraTime(sd SubData) time.Time {
+	return time.Unix(1_700_000_000+sd.WhenSec%1_000_000, 0).UTC()
+}
+
 func buildReqStruct(d ReqData) Req {
 	r := Req{
 		Text: d.Text, Num: d.Num, Flag: d.Flag, Raw: cloneBytes(d.Raw),
@@ -88,6 +93,12 @@ func buildReqStruct(d ReqData) Req {
 		r.Extra = map[string]any{"s": buildSub(d.ExtraSub), "n": d.ExtraSub.Count, "l": []string{d.ExtraSub.Label}}
 	case 5:
 		r.Extra = []Sub{buildSub(d.ExtraSub), buildSub(d.ExtraSub)}
+	case 6: // a time held directly behind the interface
+		r.Extra = extraTime(d.ExtraSub)
+	case 7: // times as elements of a []any
+		r.Extra = []any{extraTime(d.ExtraSub), d.ExtraSub.Label, extraTime(d.ExtraSub).Add(time.Hour)}
+	case 8: // a time as a value of a map[string]any
+		r.Extra = map[string]any{"notBefore": extraTime(d.ExtraSub), "n": d.ExtraSub.Count}
 	}
 	if d.Marks != nil {
 		r.Marks = make(map[string]time.Time, len(d.Marks))
